@@ -61,6 +61,7 @@ type Ctx struct {
 	NShards int
 	Race    bool   // binary was built with -race
 	WorkDir string // scratch directory for this shard (outside /repo and /verif)
+	SharedDir string // directory shared with the parent process (files for the Post step)
 
 	mu         sync.Mutex
 	evals      int64
@@ -280,6 +281,10 @@ type Check struct {
 	Run           func(c *Ctx)
 	// RaceRun, if set, is executed by the -race binary as an extra pass.
 	RaceRun func(c *Ctx)
+	// Post runs in the parent after all shards finished (e.g. an offline checker
+	// over event logs the shards wrote to SharedDir). It returns extra violations
+	// and notes; an error is a machinery failure.
+	Post func(sharedDir, verifDir string) ([]Violation, map[string]any, error)
 	// Replay re-executes one recorded case and prints what it observes.
 	Replay func(c *Ctx, raw json.RawMessage) error
 }
